@@ -1305,6 +1305,7 @@ def parts(ctx):
                depth=2, shards=8, mid_ops=_not_names("arrite"), top_ops=_not_names("store") if q else None,
                max_new=1))
     A(dict(name="mixed-d2", profile=lambda e: P.mixed_profile(e, quant=True), depth=2, shards=32, max_new=1, handoff=True))
+    A(dict(name="nary5mix-d1", profile=P.nary5mix_profile, depth=1, shards=32))
     A(dict(name="uf-d2", profile=P.uf_profile, depth=2, shards=16))
     A(dict(name="quant-d2", profile=P.quant_profile, depth=2, shards=16, max_new=1 if q else None, handoff=True))
     A(dict(name="edge-d2", profile=edge_profile, depth=2, shards=32, handoff=True,
